@@ -93,6 +93,12 @@ def rule_alias_single_assignment(repo: Repo, chk: Check, rule: str, floor_alias=
                 chk.ok(rule, key + " [register alias: judged by C01]", {"rhs": "register-alias"}, vacuous=True)
                 continue
             n_alias += 1
+            # name-independent key: where the receiver and the shared value come from
+            from ..origin import Origin
+            o = Origin(fn)
+            rt = ",".join(sorted(o.tags(tgt.value, nid)))
+            vt = ",".join(sorted(o.tags(st.value, nid)))
+            key = f"generate_code:{fn.qual}:{tgt.attr} of <{rt}> := <{vt}>"
             guarded = implied_by_guards(cfg, rd, nid, recv + ".is_overwritten", False)
             chk.judge(rule, key, guarded,
                       f"{recv} is made to share {norm(st.value)[:60]} (no copy is emitted) without a guard 'not {recv}.is_overwritten': "
@@ -152,3 +158,155 @@ def _rhs_kind(v, recv, attr, rd, nid, depth=0):
             return "fresh" if kinds <= {"fresh", "own", "empty"} else "alias"
         return "alias"
     return "alias"
+
+
+# ------------------------------------------------------------------ helpers on the handler registry
+GEN_CLASS = "CompilerPassGenerateCode"
+
+
+def handler_functions(repo: Repo, ntypes, depth=2):
+    """Functions of the code generator reached from the handlers registered for
+    *ntypes* through ``self.<method>(...)`` calls (bounded depth)."""
+    g = repo.mod("generate_code")
+    hs = repo.handlers()
+    start = []
+    for nt in ntypes:
+        if nt not in hs:
+            raise AnalysisError(f"no handler registered for nodes.{nt}")
+        q = f"{GEN_CLASS}.{hs[nt]}"
+        start.append(g.func(q))
+    seen, out, frontier = set(), [], list(start)
+    for _ in range(depth + 1):
+        nxt = []
+        for fn in frontier:
+            if id(fn) in seen:
+                continue
+            seen.add(id(fn))
+            out.append(fn)
+            for c in ast.walk(fn):
+                if isinstance(c, ast.Call) and isinstance(c.func, ast.Attribute) and isinstance(c.func.value, ast.Name) and c.func.value.id == "self":
+                    q = f"{GEN_CLASS}.{c.func.attr}"
+                    if q in g.funcs and c.func.attr not in ("compile_node", "_visit_node", "get_label", "get_intermediate_symbol", "get_register_name"):
+                        nxt.append(g.funcs[q])
+        frontier = nxt
+    return out
+
+
+def negation_flags(fn):
+    """Locals that record that the test was written with 'not': defined False,
+    and True under a guard that compares an operator with 'not'."""
+    cfg, rd = fn_ctx(fn)
+    cand = {}
+    for d in rd.all_defs:
+        if d.kind == "assign" and isinstance(d.value, ast.Constant) and isinstance(d.value.value, bool) and not d.index:
+            cand.setdefault(d.name, []).append(d)
+    out = set()
+    for name, ds in cand.items():
+        vals = {d.value.value for d in ds}
+        if vals != {True, False}:
+            continue
+        for d in ds:
+            if d.value.value is True:
+                for t, p in guard_atoms(cfg, d.node):
+                    if p and isinstance(t, ast.Compare) and any(isinstance(c, ast.Constant) and c.value == "not" for c in t.comparators):
+                        out.add(name)
+    return out
+
+
+def body_loops(fn, fields=("body",)):
+    """for <x> in node.<field>: ... self.compile_node(x) / self._visit_node(x)"""
+    out = []
+    for loop in ast.walk(fn):
+        if isinstance(loop, ast.For) and enclosing_def(loop) is fn and isinstance(loop.iter, ast.Attribute) and loop.iter.attr in fields \
+                and isinstance(loop.target, ast.Name):
+            for c in ast.walk(loop):
+                if isinstance(c, ast.Call) and isinstance(c.func, ast.Attribute) and c.func.attr in ("compile_node", "_visit_node") \
+                        and c.args and isinstance(c.args[0], ast.Name) and c.args[0].id == loop.target.id:
+                    out.append(loop)
+                    break
+    return out
+
+
+def label_var_of(site):
+    """f"{X}:" -> 'X' for a label-definition emission site, else None."""
+    e = site.op_expr
+    if isinstance(e, ast.JoinedStr) and len(e.values) == 2 and isinstance(e.values[0], ast.FormattedValue) \
+            and isinstance(e.values[0].value, ast.Name) and isinstance(e.values[1], ast.Constant) and e.values[1].value == ":":
+        return e.values[0].value.id
+    return None
+
+
+# ------------------------------------------------------------------ R01.e / R05.c
+def rule_loop_labels(repo: Repo, chk: Check, rule: str):
+    from ..emit import collect_sites
+    g = repo.mod("generate_code")
+    fns = [fn for fn in handler_functions(repo, ["For", "While"]) if body_loops(fn)]
+    if len(fns) < 3:
+        raise AnalysisError(f"{rule}: only {len(fns)} loop lowerings found (expected the for-range, for-list and while lowerings)")
+    all_sites = collect_sites(repo, ["generate_code"])
+    for fn in fns:
+        chk.saw("generate_code", fn.qual)
+        cfg, rd = fn_ctx(fn)
+        dom = cfg.dominators()
+        loops = body_loops(fn)
+        loop_ids = [i for lp in loops for i in live_ids(cfg, lp.iter)]
+        where = f"{g.path}:{fn.lineno} in {fn.qual}"
+        sites = sorted([s for s in all_sites if s.fn is fn], key=lambda s: (s.call.lineno, s.call.col_offset))
+        label_sites = {}
+        for s in sites:
+            v = label_var_of(s)
+            if v:
+                label_sites.setdefault(v, []).append(s)
+        E = [s for s in sites if s.how == "add" and s.section == "end"]
+
+        def kind(s):
+            if label_var_of(s):
+                return "label"
+            ops = s.opcodes
+            if ops is not TOP and ops and all(isinstance(o, str) and o in ("j", "jal", "jr") for o in ops):
+                return "jump"
+            return "instr"
+        kinds = [kind(s) for s in E]
+        for attr, role in (("start_label", "continue"), ("end_label", "break")):
+            stores = [st for st in ast.walk(fn) if isinstance(st, ast.Assign) and enclosing_def(st) is fn
+                      and any(isinstance(t, ast.Attribute) and t.attr == attr for t in st.targets)]
+            key = f"generate_code:{fn.qual}:{attr}"
+            if not stores:
+                chk.bad(rule, key, f"the loop lowering never sets {attr}: '{role}' inside this loop emits a jump to None", None, where)
+                continue
+            ok_dom = True
+            for st in stores:
+                sid = live_ids(cfg, st)
+                if not sid or not all(sid[0] in dom.get(l, set()) for l in loop_ids):
+                    ok_dom = False
+            chk.judge(rule, key + " [set before the body is compiled]", ok_dom and len(stores) == 1,
+                      f"{attr} is not assigned exactly once on every path before the loop body is compiled ({len(stores)} store(s))", None, where)
+            st = stores[0]
+            if not isinstance(st.value, ast.Name):
+                chk.bad(rule, key + " [label]", f"{attr} is assigned {norm(st.value)}, not a label variable", None, where)
+                continue
+            var = st.value.id
+            defs = label_sites.get(var, [])
+            if len(defs) != 1:
+                chk.bad(rule, key + " [label]", f"label {var} stored in {attr} is defined {len(defs)} time(s) in the lowering", None, where)
+                continue
+            d = defs[0]
+            if role == "continue":
+                if d in E:
+                    k = E.index(d)
+                    early = [norm(E[i].call)[:60] for i in range(k) if kinds[i] == "instr"]
+                    later_jump = any(kinds[i] == "jump" for i in range(k + 1, len(E)))
+                    chk.judge(rule, key + " [continue reaches the step code]", not early and later_jump,
+                              f"'continue' jumps to {var}, which is placed after the step instruction(s) {early} / not followed by the back jump",
+                              {"end_section": kinds}, d.where())
+                else:
+                    first_jump = next((i for i, kd in enumerate(kinds) if kd == "jump"), len(E))
+                    skipped = [norm(E[i].call)[:60] for i in range(first_jump) if kinds[i] == "instr"]
+                    chk.judge(rule, key + " [continue reaches the step code]", d.section == "" and not skipped,
+                              f"'continue' jumps to {var} at the loop head and skips the step instruction(s) {skipped} emitted before the back jump",
+                              {"end_section": kinds}, d.where())
+            else:
+                jumps = [i for i, kd in enumerate(kinds) if kd == "jump"]
+                ok = d in E and jumps and E.index(d) > max(jumps)
+                chk.judge(rule, key + " [break label follows the back jump]", bool(ok),
+                          f"'break' jumps to {var}, which is not placed after the loop's back jump", {"end_section": kinds}, d.where())
